@@ -318,7 +318,15 @@ pub fn run_until(mut done: impl FnMut() -> bool, virtual_deadline_ns: u128) -> R
         with(|e| e.current = Some(id));
         let waker = Waker::from(Arc::new(TaskWaker(id)));
         let mut cx = Context::from_waker(&waker);
-        let res = fut.as_mut().poll(&mut cx);
+        // like the real runtime, a panic ends the task it happened in (its future is dropped, which closes what it
+        // owned), not the executor; the panic hook of the harness has recorded it
+        let res = match std::panic::catch_unwind(std::panic::AssertUnwindSafe(|| fut.as_mut().poll(&mut cx))) {
+            Ok(r) => r,
+            Err(_) => {
+                with(|e| *e.stats.entry("task_panics".to_string()).or_insert(0) += 1);
+                Poll::Ready(())
+            }
+        };
         with(|e| e.current = None);
         set_label(prev_label);
         match res {
